@@ -191,6 +191,33 @@ def mandatory : Msg → Option (List (Nat × Nat))
   | .HandoverNotify => some [(ieAMFUENGAPID, reject), (ieRANUENGAPID, reject), (ieUserLocationInformation, ignore)]
   | _ => none
 
+/-! ### where a message carries the identifiers (clause 9.2, tabular definitions) -/
+
+def iePDUSessionResourceSetupListCxtRes : Nat := 72
+def iePDUSessionResourceSetupListSURes : Nat := 75
+def iePDUSessionResourceListCxtRelCpl : Nat := 60
+def iePDUSessionResourceListCxtRelReq : Nat := 133
+
+/-- the IE that carries the AMF UE NGAP ID the RAN node knows: in PATH SWITCH REQUEST (9.2.3.8) it is the
+    Source AMF UE NGAP ID, everywhere else the AMF UE NGAP ID -/
+def amfIe : Msg → Nat
+  | .PathSwitchRequest => ieSourceAMFUENGAPID
+  | _ => ieAMFUENGAPID
+
+/-- the list IE whose items start with the PDU Session ID of the session the gNB answers for
+    (9.2.2.2, 9.2.1.2, 9.2.1.4: … Setup Response List / Released List; item = PDU Session ID + transfer) -/
+def psiItemIe : Msg → Option Nat
+  | .InitialContextSetupResponse => some iePDUSessionResourceSetupListCxtRes
+  | .PDUSessionResourceSetupResponse => some iePDUSessionResourceSetupListSURes
+  | .PDUSessionResourceReleaseResponse => some iePDUSessionResourceReleasedListRelRes
+  | _ => none
+
+/-- the PDU Session Resource List of UE CONTEXT RELEASE COMPLETE (9.2.2.5) / UE CONTEXT RELEASE REQUEST (9.2.2.3) -/
+def psiListIe : Msg → Option Nat
+  | .UEContextReleaseComplete => some iePDUSessionResourceListCxtRelCpl
+  | .UEContextReleaseRequest => some iePDUSessionResourceListCxtRelReq
+  | _ => none
+
 /-! ### value ranges, clause 9.3.3.1 / 9.3.3.2 / 9.3.1.50 -/
 /-- AMF-UE-NGAP-ID ::= INTEGER (0..1099511627775) -/
 def amfUeNgapIdMax : Int := 1099511627775
